@@ -16,6 +16,9 @@ pub fn label_expr(e: &OpeningHoursExpression, case: &mut Case) -> u32 {
     if e.rules.len() > 32 {
         case.label("more_than_32_rules");
     }
+    if e.rules.len() > 100 {
+        case.label("more_than_100_rules");
+    }
     for r in &e.rules {
         let s = &r.day_selector;
         if !s.year.is_empty() {
